@@ -49,6 +49,15 @@ impl Hlab {
 impl From<Xyz> for Hlab {
     fn from(xyz: Xyz) -> Self {
         let (ka, kb) = Hlab::get_ka_kb();
+        // no luminance: a and b would be 0 / 0
+        if xyz.y == 0.0 {
+            return Hlab {
+                l: 0.0,
+                a: 0.0,
+                b: 0.0,
+            };
+        }
+
         Hlab {
             l: 1000.0 * f64::sqrt(xyz.y / YN),
             a: 10.0 * ka * ((xyz.x / XN - xyz.y / YN) / f64::sqrt(xyz.y / YN)),
